@@ -104,8 +104,9 @@ class Trace:
             pick = field(st, "pick")
             obs = field(st, "obs")
             disk = field(st, "disk")
+            en = field(st, "en")
             self.steps.append({"pick": pick[1:], "evs": evs, "obs": obs[1] if len(obs) > 1 else "",
-                               "disk": disk[1] if len(disk) > 1 else "-"})
+                               "disk": disk[1] if len(disk) > 1 else "-", "en": en[1:] if en else []})
         self.deadlock = field(t, "deadlock")[1]
         self.final = {x[0]: x[1] for x in field(t, "final")[1:]}
         ro = field(t, "reopen")
@@ -227,33 +228,113 @@ def corpus_cases(prop):
     return out
 
 
-def exhaustive(ck, binary, driver, template, limit, on_result):
-    """All interleavings of one small actor-program template (stateless enumeration: every
-    complete schedule is executed from scratch exactly once).  `template` is a case line with
-    `(sched )` empty and `(rng 0)`; children of a finished schedule differ from it at one
-    position after its forced prefix."""
-    frontier = [[]]
-    done = 0
+# Footprint of the segment a thread executes when it is released from a gate: token -> mode
+# (R read, W write, C commutative update).  Two segments of different actors are independent
+# when they share no token, or only in modes R/R or C/C.  Anything not listed is `*` = dependent
+# on everything (conservative).  Reference counts are C (increments/decrements commute; only
+# `find_vacuum` reads them); a reader's fetch segments read `disk`, unlinks write it, so the
+# interleavings of fetches with unlinks are all kept.
+def footprint(gate, cmd):
+    kind = cmd.split(":")[0]
+    if gate == "cmd.begin":
+        if kind in ("read", "compact"):
+            return {"rc": "C", "ep": "R"}
+        if kind == "vacuum":
+            return {"rc": "R", "ep": "R", "pend": "W", "pool": "W"}
+        if kind == "drop":
+            return {"rc": "C", "ep": "R", "cat": "W"}
+        return {"*": "W"}
+    if kind == "drop":
+        return {"ddl.drop.applied": {"rc": "C", "ep": "R"},
+                "vm.commit.begin": {"ep": "W", "pend": "W", "man": "W", "pool": "W"},
+                "vm.committed": {"rc": "C"}}.get(gate, {"*": "W"})
+    if kind == "read":
+        return {"txn.pinned": {"pool": "R"}, "rd.open": {"disk": "R", "rc": "C"},
+                "rd.batch": {"disk": "R", "rc": "C"}}.get(gate, {"*": "W"})
+    if kind == "compact":
+        return {"cp.pinned": {"pool": "R", "disk": "W", "rid": "W", "tl": "W"},
+                "vm.commit.begin": {"ep": "W", "pool": "W", "pend": "W", "man": "W"},
+                "vm.committed": {"rc": "C", "tl": "W"}}.get(gate, {"*": "W"})
+    if kind == "vacuum":
+        return {"vac.find": {"disk": "W"}, "vac.unlinked": {"disk": "W"}}.get(gate, {"*": "W"})
+    return {"*": "W"}
+
+
+def independent(u, v):
+    """u, v = (actor, thread, gate, cmd)"""
+    if u[0] == v[0]:
+        return False
+    fu, fv = footprint(u[2], u[3]), footprint(v[2], v[3])
+    if "*" in fu or "*" in fv:
+        return False
+    for tok, m in fu.items():
+        if tok in fv and not (m == fv[tok] and m in ("R", "C")):
+            return False
+    return True
+
+
+def exhaustive(ck, binary, driver, template, limit, on_result, reduce=True):
+    """All interleavings of one small actor-program template, up to commutation of independent
+    segments (sleep sets; `reduce=False`: plain enumeration).  Stateless: every schedule is
+    executed from scratch; a frontier item is (forced choice prefix, sleep set after its last
+    choice).  An execution whose default continuation takes a sleeping transition is cut there
+    (it is a reordering of an execution explored elsewhere)."""
+    frontier = [([], frozenset())]
+    done = cut = 0
     rnd = 0
     while frontier and done < limit:
         batch, frontier = frontier[:400], frontier[400:]
         cases = []
-        for i, pre in enumerate(batch):
+        for i, (pre, _) in enumerate(batch):
             c = re.sub(r"\(case \S+", "(case x%d_%d" % (rnd, i), template, count=1)
             c = re.sub(r"\(sched[^)]*\)", "(sched %s)" % " ".join(str(x) for x in pre), c, count=1)
             cases.append(c)
         res, _ = run_cases(ck, binary, driver, cases, tag="exh%d" % rnd)
-        for pre, (c, t, m) in zip(batch, res):
+        for (pre, sleep0), (c, t, m) in zip(batch, res):
             done += 1
             on_result(c, t, m)
             if t is None:
                 continue
-            ch = t.choices()
-            for pos in range(len(pre), len(ch)):
-                for alt in range(ch[pos][0] + 1, ch[pos][1]):
-                    frontier.append([x[0] for x in ch[:pos]] + [alt])
+            # nodes of phase 2 with their enabled identities and the command each actor runs
+            cur = {}
+            nodes = []
+            for st in t.steps:
+                if st["pick"][0] not in ("-", "0") and st["en"]:
+                    ids = []
+                    for e in st["en"]:
+                        at, gate = e.split("@")
+                        a, th = at.split(".")
+                        ids.append((a, th, gate, cur.get(a, "?")))
+                    nodes.append((ids, int(st["pick"][2])))
+                for (a, th, name, detail) in st["evs"]:
+                    if name == "cmd.begin":
+                        cur[str(a)] = detail
+            # the command of an actor gated at cmd.begin is the one it is about to start: the
+            # event was recorded when it reached the gate, so `cur` already has it
+            sleep = set(sleep0)
+            path = []
+            for pos, (ids, ch) in enumerate(nodes):
+                ex = ids[ch]
+                if pos >= len(pre):
+                    blocked = reduce and ex in sleep
+                    # the default continuation takes index 0; every other non-sleeping transition
+                    # of this node is explored as a child (in order, each sleeping on the earlier)
+                    explored = [] if blocked else [ex]
+                    for alt_i, alt in enumerate(ids):
+                        if alt_i == ch or (reduce and alt in sleep):
+                            continue
+                        child_sleep = frozenset(u for u in (set(sleep) | set(explored)) if independent(u, alt)) if reduce else frozenset()
+                        frontier.append((path + [alt_i], child_sleep))
+                        explored.append(alt)
+                    if blocked:
+                        # this execution continues with a sleeping transition: a reordering of
+                        # an execution explored elsewhere; its other branches were just queued
+                        cut += 1
+                        break
+                sleep = {u for u in sleep if independent(u, ex)}
+                path.append(ch)
         rnd += 1
-    return done, len(frontier)
+    return done, len(frontier), cut
 
 
 EXHAUSTIVE_TEMPLATES = [
@@ -395,9 +476,11 @@ def run(ck):
         judge(c, t, m)
     if not ck.quick():
         for k, tmpl in enumerate(EXHAUSTIVE_TEMPLATES):
-            n_done, n_left = exhaustive(ck, "c08", "drv_c08", tmpl, 12000, judge)
-            exh["template%d" % k] = {"schedules": n_done, "unexplored_frontier": n_left}
-            ck.log("exhaustive template %d: %d schedules, frontier left %d" % (k, n_done, n_left))
+            n_done, n_left, n_cut = exhaustive(ck, "c08", "drv_c08", tmpl, 20000, judge)
+            exh["template%d" % k] = {"schedules": n_done, "unexplored_frontier": n_left, "sleep_set_cuts": n_cut}
+            ck.log("exhaustive template %d: %d schedules (%d cut by sleep sets), frontier left %d" % (k, n_done, n_cut, n_left))
+            if n_left:
+                ck.notes.append("exhaustive template %d not completed within the cap" % k)
     ck.coverage.update({
         "evaluations": len(traces),
         "distinct_nontrivial": len(nontrivial),
